@@ -370,7 +370,8 @@ private:
    * must hold and hence, it is removed from
    * m_unproven_assertions and added to m_proved_assertions.
    **/
-  void discharge_assertions(assumption_map_t &refined_assumptions,
+  void discharge_assertions(const basic_block_label_t &entry,
+                            assumption_map_t &refined_assumptions,
                             const idom_tree_t &idom) {
     if (m_unproven_assertions.empty()) {
       return;
@@ -420,8 +421,8 @@ private:
       // if dominance information is not available then we only
       // discharge all assertions only if starting from the entry
       // block we know that we cannot violate them.
-      auto it = refined_assumptions.find(m_cfg.entry());
-      if (it->second.is_bottom()) {
+      auto it = refined_assumptions.find(entry);
+      if (it != refined_assumptions.end() && it->second.is_bottom()) {
         for (auto &kv : m_unproven_assertions) {
           m_proved_assertions.insert(kv.second);
         }
@@ -530,8 +531,9 @@ public:
     if (!m_unproven_assertions.empty() && !only_forward) {
       crab::CrabStats::resume("CombinedForwardBackward.DominatorTree");
       std::unordered_map<basic_block_label_t, basic_block_label_t> idom_map;
-      crab::analyzer::graph_algo::dominator_tree(m_cfg, m_cfg.entry(),
-                                                 idom_map);
+      // The executions start at entry which might not be the entry
+      // of the cfg.
+      crab::analyzer::graph_algo::dominator_tree(m_cfg, entry, idom_map);
       // build idom_tree
       for (auto &kv : idom_map) {
         if (kv.second == boost::graph_traits<CFG>::null_vertex()) {
@@ -679,7 +681,7 @@ public:
 
         // If refined_assumptions can prove that s is safe then
         // remove assertion s from m_unproven_assertions
-        discharge_assertions(refined_assumptions, idom_tree);
+        discharge_assertions(entry, refined_assumptions, idom_tree);
         break;
       }
     } // end while true
